@@ -16,6 +16,7 @@ PARTIAL = [
     "any time-dependent L with continuous trace (det_solution_timedep); the rest is validated numerically",
 ]
 ASSUMPTIONS = ["reference solution: classical RK4 with 4000 substeps in float64 (independent of SciPy)"]
+JIT_TWIN = ('update',)   # groups of harness/jittwin.py: the numba-compiled code is run on the same battery and compared
 TRUSTED = ["harness/solver.py scenario driver, RK4 reference integrator, LSODA recorder"]
 EXTRA_LEAN_MODULES = ("Properties.C06Analytic",)
 
